@@ -93,7 +93,9 @@ CHECKS = {
             "removers, enqueue, peek, take, dispatch, process*, copy construction and assignment of every container kind) the interpreters re-run "
             "the script with the k-th fault point armed - k-th allocation, k-th copy/move/comparison of a tracked user type - for k = 1, 2, ... "
             "until the operation completes untouched; TLC validates each such execution against the abstract spec extended with Faulted steps "
-            "(state unchanged, ledger closed, std::terminate never).",
+            "(state unchanged, ledger closed, std::terminate never). HetGen.tla / TraceHet.tla do the scripted-throw part for HeterCallbackList, "
+            "HeterEventDispatcher and HeterEventQueue (a listener that throws at every position of every bounded history: nothing of the call runs "
+            "afterwards, a processing call discards exactly what it had taken, emptyQueue() is right afterwards).",
             "fault enumeration over TLC transition covers (k-th allocation / user-type copy / scripted throw) + TLC trace validation"),
     "C10": (MC, "7/C10", "seq",
             "Two reference/implementation models decide it: ObjGen.tla (2-3 dispatcher/queue objects; copy = same listeners and filters, no "
